@@ -3,6 +3,8 @@ import QuiverModel.Core.Packaging.Sem
 import QuiverModel.Lemmas.Packaging.Exec
 import QuiverModel.Lemmas.Packaging.ValueInstrs
 import QuiverModel.Lemmas.Packaging.Inject
+import QuiverModel.Lemmas.Packaging.Nested
+import QuiverModel.Lemmas.Packaging.Canon
 /-
 C10 — packaging steps preserve behaviour (property theorems).
 
@@ -257,6 +259,26 @@ theorem strictB_sound {ρ : Ren} {P P' : Prog} {e e' : Nat} (h : validateB ρ P 
     compat_all := fun _ _ _ hf hF _ ht _ ht' _ _ hc =>
       compatFnOK_spec (AMap.all_of_get hs hf) hF ht ht' (mem_tagPairs hc) }
 
+/-- **The `canon` clause of `IsRenaming` follows from name/label preservation** when both `canon`
+    tables are the ones `compute_canonical_tuples` computes (`Prog.CanonComputed`, decided by
+    `canonComputedB` and checked per program by the driver): two tuple ids are canonically equal iff
+    their name and field labels agree (`canonOf_eq_iff_shape`), and the `tuples` clause says ρ preserves
+    both. So `Equal` can be trusted across a renaming without looking at the tables at all. -/
+theorem canon_of_name_label_preservation {ρ : Ren} {P P' : Prog} (hc : P.CanonComputed) (hc' : P'.CanonComputed)
+    (htup : ∀ t t', ρ.tuple.get t = some t' →
+      ∃ T T', P.tuples[t]? = some T ∧ P'.tuples[t']? = some T' ∧ T'.name = T.name ∧
+        T'.fields.map (·.1) = T.fields.map (·.1) ∧
+        mapOpt (fun (p : Option String × Nat) => ρ.type.get p.2) T.fields = some (T'.fields.map (·.2))) :
+    ∀ a a' b b', ρ.tuple.get a = some a' → ρ.tuple.get b = some b' →
+      (P.canonOf a = P.canonOf b ↔ P'.canonOf a' = P'.canonOf b') := by
+  intro a a' b b' ha hb
+  obtain ⟨Ta, Ta', hTa, hTa', hna, hla, _⟩ := htup a a' ha
+  obtain ⟨Tb, Tb', hTb, hTb', hnb, hlb, _⟩ := htup b b' hb
+  rw [canonOf_eq_iff_shape hc hTa hTb, canonOf_eq_iff_shape hc' hTa' hTb']
+  have ea : shapeOf Ta' = shapeOf Ta := by simp [shapeOf, hna, hla]
+  have eb : shapeOf Tb' = shapeOf Tb := by simp [shapeOf, hnb, hlb]
+  rw [ea, eb]
+
 /-- Non-vacuity of the execution theorem: `exP` run from its entry reaches a final state, and the
     shaken `exP'` reaches the related one. -/
 example : ∃ r, run exP (fun _ _ => .panic) 20 (St.start 1 Val.nil) = some r := ⟨_, rfl⟩
@@ -486,6 +508,45 @@ theorem injectCaptures_equiv_results {P P2 : Prog} {f g : Nat} {caps : List Val}
   constructor
   · intro v hv; exact ⟨fuel', by rw [← hd v hv]; exact hrun'⟩
   · intro e hev; exact ⟨fuel', by rw [← he e hev]; exact hrun'⟩
+
+/-- **`injectCaptures_prelude_nested`** — the prelude theorem for *arbitrary* captures, nested
+    capturing closures included (what `Program::value_to_instructions` does recursively): the injected
+    function `g` is a prelude followed by the body of `f`, and its prelude stores — in order — the
+    captures **rebuilt**: every capturing closure inside them is itself replaced by an injected
+    capture-free function with the same property (`Rebuilt`, recursively). For captures without
+    nested capturing closures `Rebuilt` is equality and this is `injectCaptures_prelude_partial`. -/
+theorem injectCaptures_prelude_nested {P P2 : Prog} {f g : Nat} {caps : List Val}
+    (h : injectCaptures P f caps = some (P2, g)) (hw : WfVals P caps) :
+    P.Le P2 ∧ ∃ (F : Fn) (prelude : List Instr) (caps' : List Val),
+      P2.fns[f]? = some F ∧
+      P2.fns[g]? = some { instrs := prelude ++ F.instrs, captures := 0, typeId := F.typeId } ∧
+      All2 (Rebuilt P2) caps caps' ∧ PreludeStores P2 g prelude caps' := by
+  unfold injectCaptures at h
+  split at h
+  · cases h
+  · rename_i P1 prelude hst
+    split at h
+    · cases h
+    · rename_i F hF
+      obtain ⟨hle1, caps', hreb, hstores⟩ := v2iBStores_nested caps P P1 prelude hst hw
+      have hle2 := registerFn_le P1 { instrs := prelude ++ F.instrs, captures := 0, typeId := F.typeId }
+      have hget := registerFn_get P1 { instrs := prelude ++ F.instrs, captures := 0, typeId := F.typeId }
+      simp only [Option.some.injEq] at h
+      rw [h] at hle2 hget
+      simp only at hle2 hget
+      refine ⟨hle1.trans hle2, F, prelude, caps', hle2.fns _ _ hF, hget, Rebuilt.monoList hle2 _ _ hreb, ?_⟩
+      intro Q' hQ' B S L base rest pers
+      have hcode : CodeAt Q' g 0 prelude := by
+        intro k i hk
+        refine ⟨_, hQ'.fns _ _ hget, ?_⟩
+        have hlt : k < prelude.length := by
+          rcases Nat.lt_or_ge k prelude.length with h | h
+          · exact h
+          · rw [List.getElem?_eq_none h] at hk; cases hk
+        simp only [Nat.zero_add]
+        rw [List.getElem?_append_left hlt]; exact hk
+      have := hstores Q' (hle2.trans hQ') B S L g base 0 0 rest pers hcode
+      simpa using this
 
 /-- Non-vacuity: a closure capturing an integer and a tuple, injected into a small program. -/
 example : ∃ P2 g, injectCaptures exP 2 [.int 5, .tuple 2 [.int 6]] = some (P2, g) ∧
